@@ -130,6 +130,10 @@ type FuncCtx struct {
 	havocSources  []Term
 	inlineStack   []string // repository functions without a contract being executed in place
 	notes         []string
+	loopUsed      map[*LoopContract]bool
+	codeSigs      map[string]int // loop headers that occur in the function's source
+	loopSigs      map[int]string // contract ordinal -> header of the loop it was applied to (for govc -gen-names)
+	autoLoops     int
 	defs          map[string]string // named terms of this function (name -> definition)
 	pendingAlias  []pendingAlias // set by the last call whose contract has `aliases` clauses; consumed by the assignment
 	renamed       map[*types.Var]bool
